@@ -294,7 +294,16 @@ Definition eval_case (bad : list (nat * exn)) (ls : list lspec) (f : fspec) (oth
 (* [does the access reach the function: 0/1] ++ res(3) ++ [-1] ++ journal ++ [-5] ++ the same for the undecorated class
    ++ [-5] ++ the same for the decorator applied to the function with the arguments routed as the undecorated class
    routes them (what the decorated class would do if for_all_methods kept the member kind) *)
-Definition eval_class (bad : list (nat * exn)) (n : dname) (f : fspec) (m : member) (acc : access) (self cls0 sub : val) (a : args) (k : kwargs) : list Z :=
+(* is the __repr__ of a class decorated with this shortcut replaced by a traced one (then printing `self` inside the
+   traced __repr__ recurses): not when the shortcut passes the name in `skip` *)
+Definition repr_traced (shortcut : string) : bool :=
+  match find (fun p => String.eqb (fst p) shortcut) class_skips with
+  | Some (_, names) => negb (mem_str "__repr__" names)
+  | None => true
+  end.
+
+Definition eval_class (bad0 : list (nat * exn)) (shortcut : string) (own_repr : bool) (n : dname) (f : fspec) (m : member) (acc : access) (self cls0 sub : val) (a : args) (k : kwargs) : list Z :=
+  let bad := bad0 ++ (if own_repr && repr_traced shortcut then [(50, RecursionErrorC); (51, RecursionErrorC)] else [])%nat in
   let fn := desc2 CFunc f [] in
   let l := {| l_name := n; l_rv := VNone; l_rules := [];
               l_shape := {| ks_name := "f"; ks_first_self := false; ks_star_args := true; ks_staticmethod := false;
